@@ -1,4 +1,145 @@
-//! stream `inttype` — not implemented yet
-pub fn handle(_args: &[&str]) -> Option<String> {
-    None
+//! stream `inttype` (C15): `INTEGER (a..b[, ...])` through the real front end and code generator.
+//!
+//! request  `inttype <min|none> <max|none> <0|1 extensible>`
+//! answer   `ok <variant> <stored min|none> <stored max|none> <ext 0|1> field=<ty>
+//!              fn=<ret ty>:<v_min body>:<v_max body> attr=<text inside integer(..)>
+//!              const=<T of numbers::Constraint<T>>:<MIN>:<MIN_T>:<MAX>:<MAX_T>:<EXTENSIBLE>`
+//!          | `err parse` | `err resolve`
+//!
+//! Pipeline: text -> Tokenizer -> Model::try_from -> try_resolve -> to_rust (RustType of the field)
+//!           -> RustCodeGenerator (struct field, `#[asn(integer(..))]`, `v_min`/`v_max`)
+//!           -> AsnDefWriter::stringify (constants of the `numbers::Constraint` impl).
+//! Everything after `to_rust` is read out of the generated *text* with plain string search.
+use asn1rs::model::generate::rust::RustCodeGenerator;
+use asn1rs::model::generate::walker::AsnDefWriter;
+use asn1rs::model::generate::Generator;
+use asn1rs::model::parse::Tokenizer;
+use asn1rs::model::rust::{Rust, RustType};
+use asn1rs::model::Model;
+use std::fmt::Display;
+
+fn bound(s: &str, none: &'static str) -> Option<String> {
+    if s == "none" {
+        return Some(none.to_string());
+    }
+    // one token, an optionally signed decimal number of any size
+    let digits = s.strip_prefix('-').unwrap_or(s);
+    if digits.is_empty() || !digits.bytes().all(|b| b.is_ascii_digit()) {
+        return None;
+    }
+    Some(s.to_string())
+}
+
+fn opt<T: Display>(v: &Option<T>) -> String {
+    match v {
+        Some(v) => v.to_string(),
+        None => "none".to_string(),
+    }
+}
+
+/// text between the first occurrence of `start` and the next occurrence of `end` after it
+fn between<'a>(text: &'a str, start: &str, end: &str) -> Option<&'a str> {
+    let i = text.find(start)? + start.len();
+    let j = text[i..].find(end)? + i;
+    Some(&text[i..j])
+}
+
+/// `const NAME: Option<ty> = Some(value);` -> `value`, absent -> `none`
+fn constant(text: &str, name: &str) -> String {
+    let key = format!("const {}: Option<", name);
+    match text.find(&key) {
+        None => "none".to_string(),
+        Some(i) => {
+            let rest = &text[i..];
+            match between(rest, "= Some(", ");") {
+                Some(v) => v.trim().to_string(),
+                None => "?".to_string(),
+            }
+        }
+    }
+}
+
+/// body of `fn <name>() -> T { body }`: Rust integer literal, `_` separators carry no meaning
+fn fn_body(text: &str, name: &str) -> Option<(String, String)> {
+    let key = format!("fn {}() -> ", name);
+    let i = text.find(&key)? + key.len();
+    let rest = &text[i..];
+    let open = rest.find('{')?;
+    let close = rest.find('}')?;
+    let ret = rest[..open].trim().to_string();
+    let body: String = rest[open + 1..close]
+        .chars()
+        .filter(|c| !c.is_whitespace() && *c != '_')
+        .collect();
+    Some((ret, body))
+}
+
+pub fn handle(args: &[&str]) -> Option<String> {
+    let (min, max, ext) = match args {
+        [min, max, ext] => (bound(min, "MIN")?, bound(max, "MAX")?, crate::util::pbool(ext)?),
+        _ => return None,
+    };
+    let text = format!(
+        "M DEFINITIONS AUTOMATIC TAGS ::= BEGIN T ::= SEQUENCE {{ v INTEGER ({}..{}{}) }} END",
+        min,
+        max,
+        if ext { ", ..." } else { "" }
+    );
+    let tokens = Tokenizer::default().parse(&text);
+    let model = match Model::try_from(tokens) {
+        Ok(m) => m,
+        Err(_) => return Some("err parse".to_string()),
+    };
+    let model = match model.try_resolve() {
+        Ok(m) => m,
+        Err(_) => return Some("err resolve".to_string()),
+    };
+    let rust = model.to_rust();
+    let ty = match rust.definitions.first().map(|d| &d.1) {
+        Some(Rust::Struct { fields, .. }) if fields.len() == 1 => fields[0].r#type().clone(),
+        _ => return Some("err shape".to_string()),
+    };
+    let stored = match &ty {
+        RustType::I8(r) => format!("i8 {} {} {}", r.0, r.1, r.2 as u8),
+        RustType::U8(r) => format!("u8 {} {} {}", r.0, r.1, r.2 as u8),
+        RustType::I16(r) => format!("i16 {} {} {}", r.0, r.1, r.2 as u8),
+        RustType::U16(r) => format!("u16 {} {} {}", r.0, r.1, r.2 as u8),
+        RustType::I32(r) => format!("i32 {} {} {}", r.0, r.1, r.2 as u8),
+        RustType::U32(r) => format!("u32 {} {} {}", r.0, r.1, r.2 as u8),
+        RustType::I64(r) => format!("i64 {} {} {}", r.0, r.1, r.2 as u8),
+        RustType::U64(r) => format!("u64 {} {} {}", opt(&r.0), opt(&r.1), r.2 as u8),
+        other => format!("other:{}", other.to_string()),
+    };
+    let consts = AsnDefWriter::stringify(&rust);
+    let mut generator = RustCodeGenerator::default();
+    generator.add_model(rust);
+    let files = generator.to_string().ok()?;
+    let code = &files.first()?.1;
+
+    let field = between(code, "pub v: ", ",").unwrap_or("?").trim().to_string();
+    let attr = between(code, "#[asn(integer(", "))]").unwrap_or("?").replace(' ', "");
+    let (ret_min, body_min) = fn_body(code, "v_min").unwrap_or(("?".into(), "?".into()));
+    let (ret_max, body_max) = fn_body(code, "v_max").unwrap_or(("?".into(), "?".into()));
+    let ret = if ret_min == ret_max { ret_min } else { format!("{}/{}", ret_min, ret_max) };
+    let cty = between(&consts, "numbers::Constraint<", ">").unwrap_or("?").to_string();
+    let cext = match between(&consts, "const EXTENSIBLE: bool = ", ";") {
+        Some("true") => "1",
+        Some("false") => "0",
+        _ => "?",
+    };
+    Some(format!(
+        "ok {} field={} fn={}:{}:{} attr={} const={}:{}:{}:{}:{}:{}",
+        stored,
+        field,
+        ret,
+        body_min,
+        body_max,
+        attr,
+        cty,
+        constant(&consts, "MIN"),
+        constant(&consts, "MIN_T"),
+        constant(&consts, "MAX"),
+        constant(&consts, "MAX_T"),
+        cext
+    ))
 }
